@@ -191,6 +191,7 @@ func Plan(tier string, seed uint64) []Cfg {
 		}
 		c.Policy = genPolicy(r, 2000)
 		c.Windowed = r.Intn(2) == 0
+		c.NumCPU = []int{1, 2, 3, 4, 5, 6, 7, 8, 12, 16, 24}[r.Intn(11)]
 		out = append(out, c)
 	}
 	return out
@@ -370,6 +371,7 @@ func TestBatch(t *testing.T) {
 			}
 			res.Probes[fmt.Sprintf("quantum-%d", c.Quantum)]++
 			res.Probes["policy-"+c.Policy.Kind]++
+			res.Probes[fmt.Sprintf("numcpu-%d", c.NumCPU)]++
 			if c.Windowed {
 				res.Probes["inputs-are-windows-of-one-buffer"]++
 			}
